@@ -118,3 +118,14 @@ package handler
 //@ func (*FuncInfo).argWrapper$3
 //@   fresh result
 //@   ensures[C15:array-only] typeis(result, "*handler.arrayStub") && unboxas(result, "*handler.arrayStub") != nil && unboxas(result, "*handler.arrayStub").v == callres("call.Interface#1", 0, "any") && unboxas(result, "*handler.arrayStub").posNames == names
+
+// makeCaller's adapter (C16): every call builds its own argument vector - the
+// context first, then every field of the argument struct in order - and calls
+// the wrapped function exactly once with it. (Which values the fields hold is
+// reflect's business and not decided here.)
+//@ func makeCaller$1
+//@   requires len(args) >= 2 && call != nil
+//@   at call.call#1 assert[C16:argument-vector-is-private] isnew(ptr(arg0)) && len(arg0) == rvNumField(args[1]) + 1
+//@   at call.call#1 assert[C16:context-first] arg0[0] == args[0]
+//@   ensures[C16:called-once] called("call.call#1") && result == callres("call.call#1", 0, "[]reflect.Value")
+//@   loop 1 invariant 0 <= i && i <= rvNumField(st) && len(cargs) == rvNumField(st) + 1 && isnew(ptr(cargs)) && cargs[0] == args[0]
